@@ -15,7 +15,8 @@ LEVEL_NOTE = ('claimed for the decision kernel only: byte comparison with a fres
               'FindCacheFile.load (constructed cache); at equal timestamps either decision is '
               'accepted')
 HARNESS = 'vpx.harness.c08'
-FUNCTIONS = ['bfg9000.builtins.find.find_check_cache', 'FindCache.add', 'FindCache.__getitem__',
+FUNCTIONS = ['bfg9000.builtins.find.find_check_cache', 'bfg9000.builtins.regenerate.RegenerateFiles.make',
+             'regenerate._inputs/_outputs', 'make_regenerate_rule', 'ninja_regenerate_rule', 'FindCache.add', 'FindCache.__getitem__',
              'FileFilter.to_json/from_json/__eq__/__hash__', 'PathGlob.to_json/from_json/__eq__/'
              '__hash__', 'NameGlob.to_json/from_json', 'Glob.Type.to_char/from_char']
 OUTSIDE = ['edit histories and comparison with a fresh configure', 'more than 2 filters / 2 '
@@ -52,6 +53,10 @@ def obligations(tier, kf):
     obs.append(Ob('c_check_cache', {'NF': 1, 'cached': [4]}, 300).mutant('regen_ignores_extra'))
     obs.append(Ob('c_check_cache', {'NF': 1, 'cached': [0]}, 300).mutant('regen_min_of_inputs'))
     obs.append(Ob('c_check_cache', {'NF': 1, 'cached': [0]}, 300).mutant('regen_no_touch_missing_check'))
+    ia = Ob('i_inputs_agree', {}, 600, desc='saved input list == inputs of the regenerate rule '
+                                              '(make and ninja, toolchain/mopack present or not)')
+    obs += [ia, ia.twin(), ia.mutant('regen_saved_inputs_bootstrap_only')]
+    obs.append(Ob('c_check_cache', {'NF': 1, 'cached': [1]}, 300).mutant('regen_replay_drops_find_dirs'))
     for i1 in range(6):
         obs.append(Ob('k_cache_key', {'I1': i1, 'I3': not q}, 3000, desc='cache key, first '
                                                                           'component #%d' % i1))
